@@ -562,6 +562,9 @@ def run(repo, rep):
     rep.floor('C07.f', n, 4)
     from .c07_shape import run_shape
     rep.floor('C07.h', run_shape(repo, rep), 20)
+    # the argument lists of deque([...]), OrderedDict([...]), Counter({...}) are built by the sequence builder: separated by commas at every length
+    from . import shape as _S
+    rep.floor('C07.h:builder', _S.sequence_builder_content(repo, rep, 'C07.h'), 3)
     # a path literal that is too long for the line is broken at its separators: the split pattern must keep every character
     # (re.split drops whatever is matched outside the one capturing group) - the rule of C02.b on the stdlib printers' own patterns
     from .c02 import _patterns
